@@ -15,8 +15,10 @@ LEVEL = 'exploration'
 RULE = ('Hypothesis draws (p_th, nu, A, B, C) in a well-conditioned box, 3-5 '
         'distances from {3,...,13}, 7-13 error rates on a symmetric window '
         'around p_th chosen so that every ansatz value lies in [0.02, 0.95], '
-        'trial counts N in {4000, 20000}; each data point becomes a result '
-        'record whose failure count is round(f N), written through the real '
+        'trial counts N in {4000, 20000}; each data point becomes 1, 2 or 4 '
+        'result records (runs of equal length and equal recorded wall time, '
+        'different failure counts) whose pooled failure count is round(f N), '
+        'written through the real '
         'file formats in a generated file / record order. Oracle: fit flagged '
         'successful, threshold inside its own interval and the data range, '
         '|p_th_fss - p_th| <= max(4 se, 0.03 range), and a second '
@@ -82,10 +84,17 @@ def make_records(case):
             nf = int(round(f * N))
             eff = [[1, 0]] * nf + [[0, 0]] * (N - nf)
             suc = [False] * nf + [True] * (N - nf)
-            recs.append({'inputs': inputs_for(d, p),
-                         'results': {'n_runs': N, 'wall_time': 1.0,
-                                     'effective_error': eff, 'success': suc,
-                                     'codespace': [True] * N}})
+            # the trials of a point may come from several runs (tasks of a
+            # parallel run get equal shares and may well record equal times);
+            # pooled, the planted rate is untouched
+            R = case.get('runs', 1)
+            assert N % R == 0
+            for a in range(0, N, N // R):
+                b = a + N // R
+                recs.append({'inputs': inputs_for(d, p),
+                             'results': {'n_runs': b - a, 'wall_time': 1.0,
+                                         'effective_error': eff[a:b], 'success': suc[a:b],
+                                         'codespace': [True] * (b - a)}})
     return recs
 
 
@@ -161,7 +170,8 @@ def eval_case(case):
            'labels': [f"distances={len(case['distances'])}", f"N={case['N']}",
                       'window:' + case.get('shape', 'sym'),
                       'ragged-grid' if any(t != [0, 0] for t in (case.get('trims') or [])) else 'common-grid',
-                      'C=0' if case['params'][4] == 0 else 'C>0'],
+                      'C=0' if case['params'][4] == 0 else 'C>0',
+                      f"runs-per-point={case.get('runs', 1)}"],
            'evals': len(case['layouts'])}
     if aux:
         out['aux'] = aux
@@ -225,7 +235,8 @@ def cases(draw):
         elif shape == 'high-edge':
             trims = [[t[0], 0] for t in trims]
     return {'params': [p_th, nu, A, B_raw, C], 'distances': dist, 'rates': rates,
-            'trims': trims, 'N': N, 'layouts': layouts, 'shape': shape}
+            'trims': trims, 'N': N, 'layouts': layouts, 'shape': shape,
+            'runs': draw(st.sampled_from([1, 1, 2, 4]))}
 
 
 def run(ctx):
